@@ -91,7 +91,51 @@ func printfRule(w *World, r *Result, rel string) int {
 				return true
 			}
 			tv := info.Types[call.Args[first]]
-			if tv.Value == nil || tv.Value.Kind() != constant.String {
+			var formats []string // the constant format, or every constant a helper's format parameter receives
+			if tv.Value != nil && tv.Value.Kind() == constant.String {
+				formats = []string{constant.StringVal(tv.Value)}
+			} else if id := identOf(call.Args[first]); id != nil {
+				// the format is a parameter of an unexported function that only ever receives constants
+				if host := funcContaining(call); host != nil && !host.Obj.Exported() && paramIndex(host, objOf(info, id)) >= 0 {
+					ds, wh := defsThroughAny(w, host, objOf(info, id))
+					all := len(ds) > 0
+					for i, d := range ds {
+						dtv := wh[i].Pkg.TypesInfo.Types[d]
+						if dtv.Value == nil || dtv.Value.Kind() != constant.String {
+							all = false
+							break
+						}
+						formats = append(formats, constant.StringVal(dtv.Value))
+					}
+					// every use of the function is a call (no unknown caller through a function value)
+					if all {
+						for _, fi2 := range sortedFuncs(w) {
+							callees := map[*ast.Ident]bool{}
+							ast.Inspect(fi2.Decl.Body, func(y ast.Node) bool {
+								if c2, ok := y.(*ast.CallExpr); ok {
+									switch f := ast.Unparen(c2.Fun).(type) {
+									case *ast.Ident:
+										callees[f] = true
+									case *ast.SelectorExpr:
+										callees[f.Sel] = true
+									}
+								}
+								return true
+							})
+							ast.Inspect(fi2.Decl.Body, func(y ast.Node) bool {
+								if i2, ok := y.(*ast.Ident); ok && fi2.Pkg.TypesInfo.Uses[i2] == types.Object(host.Obj) && !callees[i2] {
+									all = false
+								}
+								return true
+							})
+						}
+					}
+					if !all {
+						formats = nil
+					}
+				}
+			}
+			if formats == nil {
 				n++
 				fname := "?"
 				for _, fi := range sortedFuncs(w) {
@@ -102,55 +146,56 @@ func printfRule(w *World, r *Result, rel string) int {
 				r.bad("PRINTF", fname, "format "+es(call.Args[first]), w.Pos(call.Pos()), "the format of "+fullName(calleeOf(info, call))+" is not a constant: text computed from the analysed program is interpreted as a format, so a `%` in it (an enum value \"%\", a comment `100 %`) corrupts the output and consumes the arguments meant for the real verbs")
 				return true
 			}
-			n++
-			format := constant.StringVal(tv.Value)
-			// %+q / %#q / %x of text are Go-specific spellings (\U0001d4b3, backquotes, hex): fine in Go sources, wrong in
-			// every other target language
-			if rel != "generator/go/gounions" && rel != "generator/go/randdata" && rel != "generator/go/sqlcrud" && (fullName(calleeOf(info, call)) == "fmt.Sprintf" || fullName(calleeOf(info, call)) == "fmt.Fprintf") {
-				for _, m := range regexp.MustCompile(`%(\[\d+\])?[+#0 -]+[qsv]`).FindAllString(format, -1) {
-					fname := "?"
-					for _, fi := range sortedFuncs(w) {
-						if fi.Pkg == p && fi.Decl.Pos() <= call.Pos() && call.End() <= fi.Decl.End() {
-							fname = fi.Name
+			for _, format := range formats {
+				n++
+				// %+q / %#q / %x of text are Go-specific spellings (\U0001d4b3, backquotes, hex): fine in Go sources, wrong in
+				// every other target language
+				if rel != "generator/go/gounions" && rel != "generator/go/randdata" && rel != "generator/go/sqlcrud" && (fullName(calleeOf(info, call)) == "fmt.Sprintf" || fullName(calleeOf(info, call)) == "fmt.Fprintf") {
+					for _, m := range regexp.MustCompile(`%(\[\d+\])?[+#0 -]+[qsv]`).FindAllString(format, -1) {
+						fname := "?"
+						for _, fi := range sortedFuncs(w) {
+							if fi.Pkg == p && fi.Decl.Pos() <= call.Pos() && call.End() <= fi.Decl.End() {
+								fname = fi.Name
+							}
 						}
+						r.bad("PRINTF", fname, "verb "+m+" in "+strconv.Quote(strings.TrimSpace(format)), w.Pos(call.Pos()), "the flagged verb "+m+" prints Go-specific escapes (`%+q` writes a character outside the BMP as \\U0001d4b3, which JavaScript, Dart and SQL do not read as that character): text that Go emits verbatim no longer matches the generated literal")
 					}
-					r.bad("PRINTF", fname, "verb "+m+" in "+strconv.Quote(strings.TrimSpace(format)), w.Pos(call.Pos()), "the flagged verb "+m+" prints Go-specific escapes (`%+q` writes a character outside the BMP as \\U0001d4b3, which JavaScript, Dart and SQL do not read as that character): text that Go emits verbatim no longer matches the generated literal")
 				}
-			}
-			nargs := len(call.Args) - first - 1
-			argi, maxUsed, reordered := 0, 0, false
-			missing := false
-			for _, m := range verbRe.FindAllStringSubmatchIndex(format, -1) {
-				if format[m[0]:m[1]] == "%%" {
-					continue
+				nargs := len(call.Args) - first - 1
+				argi, maxUsed, reordered := 0, 0, false
+				missing := false
+				for _, m := range verbRe.FindAllStringSubmatchIndex(format, -1) {
+					if format[m[0]:m[1]] == "%%" {
+						continue
+					}
+					if m[2] >= 0 {
+						var k int
+						fmtSscan(format[m[2]+1:m[3]-1], &k)
+						argi = k - 1
+						reordered = true
+					}
+					if argi >= nargs || argi < 0 {
+						missing = true
+					}
+					argi++
+					if argi > maxUsed {
+						maxUsed = argi
+					}
 				}
-				if m[2] >= 0 {
-					var k int
-					fmtSscan(format[m[2]+1:m[3]-1], &k)
-					argi = k - 1
-					reordered = true
+				fn := w.EnclosingFunc(p, call.Pos())
+				head := strings.Join(strings.Fields(format), " ")
+				if len(head) > 40 {
+					head = head[:40] + "…"
 				}
-				if argi >= nargs || argi < 0 {
-					missing = true
+				cons := fmt.Sprintf("%s(%q, %d args)", es(call.Fun), head, nargs)
+				switch {
+				case missing:
+					r.bad("PRINTF", fn, cons, w.Pos(call.Pos()), "the format refers to an argument that is not passed: the output contains %!s(MISSING) / %!s(BADINDEX)")
+				case !reordered && maxUsed < nargs:
+					r.bad("PRINTF", fn, cons, w.Pos(call.Pos()), fmt.Sprintf("the format consumes %d arguments but %d are passed: the output ends with %%!(EXTRA …)", maxUsed, nargs))
+				default:
+					r.ok("PRINTF", fn, cons, w.Pos(call.Pos()), "every verb has its argument and (without explicit indices) no argument is left over", false)
 				}
-				argi++
-				if argi > maxUsed {
-					maxUsed = argi
-				}
-			}
-			fn := w.EnclosingFunc(p, call.Pos())
-			head := strings.Join(strings.Fields(format), " ")
-			if len(head) > 40 {
-				head = head[:40] + "…"
-			}
-			cons := fmt.Sprintf("%s(%q, %d args)", es(call.Fun), head, nargs)
-			switch {
-			case missing:
-				r.bad("PRINTF", fn, cons, w.Pos(call.Pos()), "the format refers to an argument that is not passed: the output contains %!s(MISSING) / %!s(BADINDEX)")
-			case !reordered && maxUsed < nargs:
-				r.bad("PRINTF", fn, cons, w.Pos(call.Pos()), fmt.Sprintf("the format consumes %d arguments but %d are passed: the output ends with %%!(EXTRA …)", maxUsed, nargs))
-			default:
-				r.ok("PRINTF", fn, cons, w.Pos(call.Pos()), "every verb has its argument and (without explicit indices) no argument is left over", false)
 			}
 			return true
 		})
